@@ -18,7 +18,7 @@ import (
 func init() {
 	Props["C02"] = &harness.Prop{
 		ID:          "C02",
-		Rule:        "input dimension: every string up to length 6 (quick) / 8 (thorough) over {D3,00,01,02,p,c1,c2,c3}, every cut of three longer frames after three prefixes, every sequence of <=3 menu segments, through the sequential framing seam; schedule dimension: producer, HandleMessages and consumer threads under the controlled scheduler for every string up to length 4 (quick) / 6 (thorough) over {D3,00,01,41} plus 9 selected short streams plus 7 typed frames (1005, 1006, 1077, 1074, 1230, 1087, 4095) alone, after junk, truncated and in pairs, for every (input,output) channel capacity pair in {0,1,2}^2 (quick) / {0,1,2,3}^2 (thorough), plus bursts of 24 messages with a consumer that lags as far as the pipeline allows; all interleavings up to the stated preemption bound (all of them when the bound prunes nothing). Non-trivial = stream contains 0xD3 (input) / distinct schedule trace (schedules)",
+		Rule:        "input dimension: every string up to length 6 (quick) / 8 (thorough) over {D3,00,01,02,p,c1,c2,c3}, every cut of three longer frames after three prefixes, every sequence of <=3 menu segments, through the sequential framing seam; three consecutive streams through one handler with the real HandleMessages (11 ways for the first to end x every <=2-segment second stream); schedule dimension: producer, HandleMessages and consumer threads under the controlled scheduler for every string up to length 4 (quick) / 6 (thorough) over {D3,00,01,41} plus 9 selected short streams plus 7 typed frames (1005, 1006, 1077, 1074, 1230, 1087, 4095) alone, after junk, truncated and in pairs, for every (input,output) channel capacity pair in {0,1,2}^2 (quick) / {0,1,2,3}^2 (thorough), plus bursts of 24 messages with a consumer that lags as far as the pipeline allows; all interleavings up to the stated preemption bound (all of them when the bound prunes nothing). Non-trivial = stream contains 0xD3 (input) / distinct schedule trace (schedules)",
 		Assumptions: []string{"scheduling points are the channel operations of rtcm/handler and rtcm/pushback (instrumented at build time); code between two channel operations is atomic for this property, which is sound because the three threads share memory only through the two channels"},
 		Pre:         func(r *ev.Run) { props.C02Input(r) },
 		Scenarios:   c02Scenarios,
